@@ -1,0 +1,21 @@
+//go:build verif
+
+package test
+
+import (
+	"time"
+
+	"github.com/thought-machine/please/src/core"
+)
+
+// VerifParseResults parses the contents of one or more test result files (JUnit XML, go test
+// output...) exactly as the test step does, for the /verif property checks.
+func VerifParseResults(data [][]byte) (core.TestSuite, error) {
+	return parseTestResults(data)
+}
+
+// VerifParseTestOutput combines a test's exit status (runError) and its result files into the test
+// suite of one run, exactly as doTest does.
+func VerifParseTestOutput(stdout, stderr string, runError error, duration time.Duration, target *core.BuildTarget, resultsData [][]byte) core.TestSuite {
+	return parseTestOutput(stdout, stderr, runError, duration, target, resultsData)
+}
